@@ -175,6 +175,7 @@ func TestCheck(t *testing.T) {
 	familyA(t, r, conds)
 	familyB(t, r, conds)
 	familyC(t, r)
+	familyD(t, r, conds)
 	r.Finish(t)
 }
 
@@ -609,4 +610,157 @@ func names(fl []flowSpec) (out []string) {
 		out = append(out, f.name)
 	}
 	return
+}
+
+// ---- family D: references to other flows ---------------------------------------------------
+//
+// Flow B (on a URL the transaction does not match) is referenced by flow A, the flow the
+// transaction matches, in the three ways the schema offers:
+//   D1 request : A starts "from flow B at end -> P1": B's request graph runs first and every
+//                path of it that reaches the stream end continues with P1;
+//   D2 request : "P1[a] -> flow B at start": after P1 outputs a, B's request graph runs;
+//   D3 response: "R1 -> flow B at start": after R1, B's response graph runs.
+// B's graph is every forward graph over <=2 probes; every output choice is run.
+
+func shift(g fg.Graph, by int, endTo int) [][]fg.Edge {
+	out := make([][]fg.Edge, len(g.Edges))
+	for i, es := range g.Edges {
+		for _, e := range es {
+			t := e.To
+			if t >= 0 {
+				t += by
+			} else {
+				t = endTo
+			}
+			out[i] = append(out[i], fg.Edge{Cond: e.Cond, To: t})
+		}
+	}
+	return out
+}
+
+func flowRefYAML(kind string, b fg.Graph) (aYAML, bYAML string) {
+	end := "        stream:\n          name: globalStream\n          at: end\n"
+	start := "        stream:\n          name: globalStream\n          at: start\n"
+	proc := func(n, cond string) string {
+		s := "        processor:\n          name: " + n + "\n"
+		if cond != "" {
+			s += "          condition: " + cond + "\n"
+		}
+		return s
+	}
+	flowRef := func(at string) string { return "        flow:\n          name: fb\n          at: " + at + "\n" }
+	minimalReq := "    - from:\n" + start + "      to:\n" + proc("Q", "") + "    - from:\n" + proc("Q", "") + "      to:\n" + end
+	minimalRes := "    - from:\n" + start + "      to:\n" + end
+	procs := func(keys ...string) string {
+		s := "processors:\n"
+		for _, k := range keys {
+			s += "  " + k + ":\n    processor: VerifProbe\n"
+		}
+		return s
+	}
+	head := func(name, url string) string { return "name: " + name + "\nfilter:\n  url: " + url + "\n" }
+	switch kind {
+	case "D1":
+		aYAML = head("fa", "h.com/*") + procs("P1") + "flow:\n  request:\n" +
+			"    - from:\n" + flowRef("end") + "      to:\n" + proc("P1", "") +
+			"    - from:\n" + proc("P1", "") + "      to:\n" + end + "  response:\n" + minimalRes
+		bYAML = head("fb", "other.org/*") + procs(b.Nodes...) + "flow:\n  request:\n" + b.Connections() + "  response:\n" + minimalRes
+	case "D2":
+		aYAML = head("fa", "h.com/*") + procs("P1") + "flow:\n  request:\n" +
+			"    - from:\n" + start + "      to:\n" + proc("P1", "") +
+			"    - from:\n" + proc("P1", "a") + "      to:\n" + flowRef("start") +
+			"    - from:\n" + proc("P1", "") + "      to:\n" + end + "  response:\n" + minimalRes
+		bYAML = head("fb", "other.org/*") + procs(b.Nodes...) + "flow:\n  request:\n" + b.Connections() + "  response:\n" + minimalRes
+	default: // D3
+		aYAML = head("fa", "h.com/*") + procs("Q", "R1") + "flow:\n  request:\n" + minimalReq + "  response:\n" +
+			"    - from:\n" + start + "      to:\n" + proc("R1", "") +
+			"    - from:\n" + proc("R1", "") + "      to:\n" + flowRef("start")
+		bYAML = head("fb", "other.org/*") + procs(append([]string{"QB"}, b.Nodes...)...) + "flow:\n  request:\n" +
+			"    - from:\n" + start + "      to:\n" + proc("QB", "") + "    - from:\n" + proc("QB", "") + "      to:\n" + end +
+			"  response:\n" + b.Connections()
+	}
+	return
+}
+
+func familyD(t *testing.T, r *mc.Run, conds []string) {
+	idx := 1 << 22
+	for _, kind := range []string{"D1", "D2", "D3"} {
+		for n := 1; n <= 2; n++ {
+			keys := []string{"X1", "X2"}[:n]
+			fg.Forward(keys, conds, 2, func(b fg.Graph) {
+				idx++
+				if !r.Mine(idx) {
+					return
+				}
+				aY, bY := flowRefYAML(kind, b)
+				files := eng.Files{Flows: map[string]string{"fa.yaml": aY, "fb.yaml": bY}}
+				s, _, err := load(files)
+				if err != nil {
+					r.Add("rejected_graphs", 1)
+					r.Outcome("D rejected: " + firstWords(err.Error()))
+					if os.Getenv("VERIF_DEBUG") != "" {
+						fmt.Printf("DREJ %s {%s}: %v\n", kind, b, err)
+					}
+					return
+				}
+				r.Add("graphs", 1)
+				// combined reference graph
+				var ref fg.Graph
+				dir := "req"
+				switch kind {
+				case "D1": // B's nodes, then P1; B's stream-end connections lead to P1
+					ref = fg.Graph{Nodes: append(append([]string{}, b.Nodes...), "P1"), Root: b.Root}
+					ref.Edges = append(shift(b, 0, len(b.Nodes)), []fg.Edge{{Cond: "", To: fg.End}})
+				case "D2":
+					ref = fg.Graph{Nodes: append([]string{"P1"}, b.Nodes...), Root: 0}
+					ref.Edges = append([][]fg.Edge{{{Cond: "a", To: 1 + b.Root}, {Cond: "", To: fg.End}}}, shift(b, 1, fg.End)...)
+				default:
+					dir = "res"
+					ref = fg.Graph{Nodes: append([]string{"R1"}, b.Nodes...), Root: 0}
+					ref.Edges = append([][]fg.Edge{{{Cond: "", To: 1 + b.Root}}}, shift(b, 1, fg.End)...)
+				}
+				outs := outputs(conds, false)
+				tuples(outs, len(ref.Nodes), func(choice []string) {
+					plan := map[string]string{}
+					want := map[string]string{}
+					for i, c := range choice {
+						// the walk of flow A reports every processor under flow A's name
+						plan[dir+":fa/"+ref.Nodes[i]] = c
+						want[ref.Nodes[i]] = c
+					}
+					out := func(_, key string) string { return want[key] }
+					var expect []string
+					if dir == "req" {
+						expect, _ = fg.WalkReq(ref, out)
+					} else {
+						expect = fg.WalkRes(ref, out, -1)
+					}
+					for _, cur := range []bool{false, true} {
+						probe.ReportCurrentType = cur
+						evs, v, rv := runTxn(s, "h.com/x", plan, true)
+						r.Add("evaluations", 1)
+						var got []string
+						for _, e := range evs {
+							if e.Dir == dir && e.Key != "Q" && e.Key != "QB" {
+								got = append(got, e.Key)
+							}
+						}
+						r.NonTrivial(fmt.Sprintf("%s|%s|%v", kind, b, plan))
+						r.Outcome(fmt.Sprintf("%s events=%d", kind, len(got)))
+						if v.Err != "" || rv.Err != "" {
+							r.Violation("ERROR:flow-reference", fmt.Sprintf("family %s referenced graph {%s} input %v: engine error %s%s", kind, b, plan, v.Err, rv.Err),
+								replay{cur, kind, files.Flows, nil, plan, "h.com/x", expect, probeStrings(evs)})
+							break
+						}
+						if !eq(expect, got) {
+							r.Violation("FLOW-REFERENCE:"+kind+":"+classify(expect, got), fmt.Sprintf("family %s (flow fa references flow fb {%s}) input %v: expected %v, observed %v", kind, b, plan, expect, got),
+								replay{cur, kind, files.Flows, nil, plan, "h.com/x", expect, probeStrings(evs)})
+							break
+						}
+					}
+					probe.ReportCurrentType = false
+				})
+			})
+		}
+	}
 }
